@@ -48,14 +48,15 @@ func reducedLeaves() []rj.Value {
 // tokens and to JavaScript construction code)
 
 const (
-	nLeaf  = iota // primitive (incl. undefined)
-	nArr          // array of kids
-	nObj          // object: keys/kids
-	nWrap         // new Number/String/Boolean(leaf)
-	nFn           // a function object
-	nRef          // reference to an enclosing/earlier labelled node (cycles, sharing)
-	nHole         // array hole (only as a kid of nArr)
-	nProto        // object created with Object.create(kids[0]); own members keys[1:]/kids[1:]
+	nLeaf   = iota // primitive (incl. undefined)
+	nArr           // array of kids
+	nObj           // object: keys/kids
+	nWrap          // new Number/String/Boolean(leaf)
+	nFn            // a function object
+	nRef           // reference to an enclosing/earlier labelled node (cycles, sharing)
+	nHole          // array hole (only as a kid of nArr)
+	nProto         // object created with Object.create(kids[0]); own members keys[1:]/kids[1:]
+	nHostFn        // a host function: hostMode (valueOf/toString/...) + behaviour name in toJSON
 )
 
 type node struct {
@@ -68,6 +69,11 @@ type node struct {
 	label   int    // >0: can be the target of nRef
 	ref     int
 	target  bool // the object a holder-mutating toJSON operates on (mutators.go)
+	// hostMode: nHostFn only. protoConv: nWrap only — conversion methods patched
+	// into Number/String/Boolean.prototype for the duration of the case (the case
+	// must then run on a throw-away runtime): method name -> behaviour name.
+	hostMode  string
+	protoConv map[string]string
 }
 
 func lf(v rj.Value) *node         { return &node{kind: nLeaf, leaf: v} }
@@ -98,8 +104,16 @@ func (n *node) model(h *hostModel, labels map[int]*rj.Obj) rj.Value {
 		return n.leaf
 	case nRef:
 		return rj.ObjV(labels[n.ref])
+	case nHostFn:
+		return rj.ObjV(h.fn(n.hostMode, n.toJSON))
 	case nWrap:
 		o = rj.NewWrapper(n.leaf)
+		if len(n.protoConv) > 0 {
+			o.Proto = rj.NewObject()
+			for m, b := range n.protoConv {
+				o.Proto.Put(rj.K(m), rj.ObjV(h.fn(m, b)))
+			}
+		}
 	case nFn:
 		o = rj.NewFunction(func(this rj.Value, args []rj.Value) rj.Value { return rj.Undef })
 	case nArr:
@@ -147,7 +161,16 @@ func (n *node) model(h *hostModel, labels map[int]*rj.Obj) rj.Value {
 // toJS renders JavaScript that constructs the value imperatively (so that
 // cycles, sharing, holes, prototypes and attributes are all expressible) and
 // evaluates to it.
-func (n *node) toJS() string {
+func (n *node) toJS() string { return n.toJSMode(false) }
+
+// toJSDefine is toJS with every array element and object member created by
+// Object.defineProperty instead of assignment: in a runtime whose prototypes
+// carry accessors or read-only properties an assignment would be intercepted.
+func (n *node) toJSDefine() string { return n.toJSMode(true) }
+
+const defineMarker = -1 // labels[defineMarker] != "": create members with defineProperty
+
+func (n *node) toJSMode(define bool) string {
 	if n.kind == nLeaf {
 		return "(" + jsPrim(n.leaf) + ")"
 	}
@@ -155,6 +178,9 @@ func (n *node) toJS() string {
 	sb.WriteString("(function(){")
 	cnt := 0
 	labels := map[int]string{}
+	if define {
+		labels[defineMarker] = "1"
+	}
 	root := n.js(&sb, &cnt, labels)
 	sb.WriteString("return " + root + ";})()")
 	return sb.String()
@@ -219,6 +245,8 @@ func (n *node) js(sb *strings.Builder, cnt *int, labels map[int]string) string {
 		return jsPrim(n.leaf)
 	case nRef:
 		return labels[n.ref]
+	case nHostFn:
+		return "__cv_" + n.hostMode + "_" + n.toJSON
 	}
 	name := fmt.Sprintf("n%d", *cnt)
 	*cnt++
@@ -229,6 +257,11 @@ func (n *node) js(sb *strings.Builder, cnt *int, labels map[int]string) string {
 	case nWrap:
 		ctor := map[rj.Kind]string{rj.Number: "Number", rj.String: "String", rj.Bool: "Boolean"}[n.leaf.Kind]
 		fmt.Fprintf(sb, "var %s=new %s(%s);", name, ctor, jsPrim(n.leaf))
+		for _, m := range []string{"valueOf", "toString"} {
+			if b, ok := n.protoConv[m]; ok {
+				fmt.Fprintf(sb, "%s.prototype.%s=__cv_%s_%s;", ctor, m, m, b)
+			}
+		}
 		n.jsMembers(sb, cnt, labels, name)
 	case nFn:
 		fmt.Fprintf(sb, "var %s=function(){};", name)
@@ -241,6 +274,10 @@ func (n *node) js(sb *strings.Builder, cnt *int, labels map[int]string) string {
 				continue
 			}
 			e := k.js(sb, cnt, labels)
+			if labels[defineMarker] != "" {
+				fmt.Fprintf(sb, "Object.defineProperty(%s,\"%d\",{value:%s,writable:true,enumerable:true,configurable:true});", name, i, e)
+				continue
+			}
 			fmt.Fprintf(sb, "%s[%d]=%s;", name, i, e)
 		}
 	case nObj:
@@ -248,8 +285,10 @@ func (n *node) js(sb *strings.Builder, cnt *int, labels map[int]string) string {
 		for i, k := range n.kids {
 			e := k.js(sb, cnt, labels)
 			enum := !(i < len(n.nonEnum) && n.nonEnum[i])
-			if enum {
+			if enum && labels[defineMarker] == "" {
 				fmt.Fprintf(sb, "%s[%s]=%s;", name, jsStr(rj.U(n.keys[i])), e)
+			} else if enum {
+				fmt.Fprintf(sb, "Object.defineProperty(%s,%s,{value:%s,writable:true,enumerable:true,configurable:true});", name, jsStr(rj.U(n.keys[i])), e)
 			} else {
 				fmt.Fprintf(sb, "Object.defineProperty(%s,%s,{value:%s,writable:true,enumerable:false,configurable:true});", name, jsStr(rj.U(n.keys[i])), e)
 			}
@@ -611,4 +650,23 @@ func (n *node) with(key string, kid *node) *node {
 	n.keys = append(n.keys, key)
 	n.kids = append(n.kids, kid)
 	return n
+}
+
+// hostFn is a host function member value (conversion methods).
+func hostFn(mode, beh string) *node { return &node{kind: nHostFn, hostMode: mode, toJSON: beh} }
+
+// patchesPrototypes reports whether constructing n modifies a built-in prototype.
+func (n *node) patchesPrototypes() bool {
+	if n == nil {
+		return false
+	}
+	if len(n.protoConv) > 0 {
+		return true
+	}
+	for _, k := range n.kids {
+		if k.patchesPrototypes() {
+			return true
+		}
+	}
+	return false
 }
